@@ -95,7 +95,7 @@ theorem fi_leaf_not_ancestor {g : Forest} (hi : g.Inv) {node x : Nat} {ev : Valu
     have hmem := mem_subtree_of_anc lc hi.nodup hx hc
     have hCv : C.value = ev := by
       have := value?_of_loc lc hi.nodup; rw [hnv] at this; exact (Option.some.inj this).symm
-    have hkids : C.kids = [] := kids_nil_of_valid (hi.validTree_of_loc lc) (by rw [hCv]; exact he) (by rw [hCv]; exact hd)
+    have hkids : C.kids = [] := fi_kids_nil_of_valid (hi.validTree_of_loc lc) (by rw [hCv]; exact he) (by rw [hCv]; exact hd)
     rw [fi_handles_eq, hkids, lc.hk] at hmem
     simp at hmem
     exact hne hmem
@@ -146,7 +146,7 @@ theorem mapPlace_after {g : Forest} (hi : g.Inv) {parent node : Nat} {en : Nat} 
   have hpar : parent ∈ g.allHandles := by
     unfold allHandles; rw [locp.eq, mem_handlesList_plug]
     refine Or.inr ?_
-    simp only [fi_handlesList_append, handlesList_cons, List.mem_append]
+    simp only [fi_handlesList_append, fi_handlesList_cons, List.mem_append]
     exact Or.inr (Or.inl (locp.hk ▸ fi_handle_mem_handles K))
   have hpv : g.value? parent = some (.element en) := by rw [value?_of_loc locp nd, hKv]
   apply checkedInsertAfter_gen hi hnv (value?_of_loc locip nd)
